@@ -27,7 +27,7 @@ pub(crate) fn generate_pipeline(
     // Generate binding info
     let mut binding_layout = PipelineBindingLayout::default();
     for decl in &context.module.root_definitions {
-        analyse_bindings(decl, context.module, &mut binding_layout)?;
+        analyse_bindings(decl, context, &mut binding_layout)?;
     }
 
     // Find all used globals
@@ -868,9 +868,10 @@ impl PipelineBindingLayout {
 /// Find a binding within a root definition
 fn analyse_bindings(
     decl: &ir::RootDefinition,
-    module: &ir::Module,
+    context: &GenerateContext,
     layout: &mut PipelineBindingLayout,
 ) -> Result<(), GenerateError> {
+    let module = context.module;
     match decl {
         ir::RootDefinition::Struct(_)
         | ir::RootDefinition::StructTemplate(_)
@@ -958,7 +959,8 @@ fn analyse_bindings(
 
             if let Some(api_slot) = decl.api_slot {
                 let binding = DescriptorBinding {
-                    name: module.get_global_name(*id).to_string(),
+                    // Report the name of the argument buffer member which may have been renamed
+                    name: context.get_global_name(*id)?.to_string(),
                     api_binding: api_slot.location,
                     descriptor_type,
                     descriptor_count,
